@@ -221,6 +221,20 @@ func decodeMagnitude(decodeBit func() int, nBits, base int) int64 {
 // iaidCtx holds the context state for the IAID procedure.
 type iaidCtx struct {
 	ctx []byte // 2^codeLen contexts
+
+	// If track is set, touched lists the contexts used since the last
+	// reset, so that reset takes time proportional to the decoding work
+	// done instead of the size of ctx.
+	track   bool
+	touched []int32
+}
+
+// reset returns a tracking context to its initial (all zero) state.
+func (ic *iaidCtx) reset() {
+	for _, i := range ic.touched {
+		ic.ctx[i] = 0
+	}
+	ic.touched = ic.touched[:0]
 }
 
 func newIAIDCtx(codeLen int) (*iaidCtx, error) {
@@ -246,6 +260,9 @@ func (ic *iaidCtx) encode(enc *mqEncoder, codeLen int, id int) {
 func (ic *iaidCtx) decode(dec *mqDecoder, codeLen int) int {
 	prev := 1
 	for range codeLen {
+		if ic.track {
+			ic.touched = append(ic.touched, int32(prev))
+		}
 		cx := &ic.ctx[prev]
 		d := dec.decode(cx)
 		prev = (prev << 1) | d
